@@ -102,12 +102,13 @@ class RemoveVertices(Scenario):
             d_.on_file = False
         with self.engine(cx) as X:
             V, C, D, CD, w = _sym_geometry(cx, X, obj, vd, cd, kind, n, m)
-            I = [cx.int(f"i{t}", 0, n) for t in range(k)]
+            neg = bool(self.params.get("negative"))
+            I = [cx.int(f"i{t}", -n if neg else 0, n) for t in range(k)]       # negative: numpy-style indices from the end
             if self.params.get("as_array"):
                 arg = mk_array(X, I, (k,), "int64")
             else:
                 arg = list(I)
-            removed = [Or([i == j for i in I]) for j in range(n)]
+            removed = [Or([Or(i == j, i == j - n) for i in I]) for j in range(n)]
             if w:
                 touches = Or([select(removed, C[c][a]) for c in range(m) for a in range(w)])
                 self.known_class(cx, "removed_vertices_touch_no_cell", Not(touches))
@@ -246,6 +247,9 @@ class RemoveAndReopen(Scenario):
             V, C, D, CD, w = _sym_geometry(cx, X, obj, vd, cd, kind, n, m)
             for v in list(D) + list(CD):        # the documented exception: a float equal to the float no-data sentinel
                 cx.assume(Not(eq(v, 1.17549435e-38)) if cx.mode == "sym" else v != 1.17549435e-38)
+            if self.params.get("infinities"):       # infinite values are values too: they follow their vertex / cell into the file
+                D = [float("inf")] + list(D[1:-1]) + [float("-inf")] if len(D) > 1 else [float("inf")]
+                vd.values = mk_array(X, D, (n,), "float64")
             if kind == "curve":
                 _ = obj.parts           # derived cache that the operation must not leave stale
             I = [cx.int(f"i{t}", 0, n if op == "vertices" else m) for t in range(k)]
@@ -424,6 +428,8 @@ def scenarios(tier, seed):
     S = []
     if tier == "quick":
         S += [RemoveVertices(kind="points", n=4, m=0, k=2),
+              RemoveVertices(kind="points", n=3, m=0, k=2, negative=True),
+              RemoveVertices(kind="curve", n=3, m=2, k=2, negative=True),
               RemoveVertices(kind="curve", n=4, m=3, k=2),
               RemoveVertices(kind="curve", n=3, m=2, k=1, as_array=True),
               RemoveVertices(kind="surface", n=4, m=2, k=1),
@@ -435,11 +441,14 @@ def scenarios(tier, seed):
         S += [MaskedCopy(kind="points", n=3, m=0), MaskedCopy(kind="curve", n=3, m=2)]
         S += [RemoveAndReopen(kind="curve", n=4, m=3, k=1, op="cells", clear_cache=True),
               RemoveAndReopen(kind="curve", n=4, m=3, k=1, op="cells"), RemoveAndReopen(kind="curve", n=4, m=3, k=1, op="vertices"),
-              RemoveAndReopen(kind="surface", n=4, m=2, k=1, op="cells"), RemoveAndReopen(kind="points", n=3, m=0, k=2, op="vertices")]
+              RemoveAndReopen(kind="surface", n=4, m=2, k=1, op="cells"), RemoveAndReopen(kind="points", n=3, m=0, k=2, op="vertices"),
+              RemoveAndReopen(kind="points", n=3, m=0, k=1, op="vertices", infinities=True),
+              RemoveAndReopen(kind="curve", n=4, m=3, k=1, op="cells", infinities=True)]
         for L in (1, 2, 3):
             S.append(AssignValues(kind="curve", n=2, L=L, dkind="float"))
         S.append(AssignValues(kind="surface", n=2, L=3, dkind="int"))
     else:
+        S += [RemoveVertices(kind=kd, n=nn, m=mm, k=2, negative=True) for kd, nn, mm in (("points", 4, 0), ("curve", 4, 3), ("surface", 4, 2))]
         S += [RemoveVertices(kind="points", n=5, m=0, k=3),
               RemoveVertices(kind="points", n=3, m=0, k=2, as_array=True),
               RemoveVertices(kind="curve", n=4, m=3, k=2),
